@@ -202,6 +202,9 @@ impl<F: Fill> fmt::Debug for SimKey<F> {
     fn fmt(&self, f: &mut fmt::Formatter<'_>) -> fmt::Result {
         let p = self.peek();
         env::touch(Cb::FmtK, Some(&p), None);
+        if env::fmt_elem_fails() {
+            return Err(fmt::Error);
+        }
         write!(f, "k{}", p.id)
     }
 }
@@ -210,6 +213,9 @@ impl<F: Fill> fmt::Display for SimKey<F> {
     fn fmt(&self, f: &mut fmt::Formatter<'_>) -> fmt::Result {
         let p = self.peek();
         env::touch(Cb::FmtK, Some(&p), None);
+        if env::fmt_elem_fails() {
+            return Err(fmt::Error);
+        }
         write!(f, "K{}", p.id)
     }
 }
@@ -303,6 +309,9 @@ impl<F: Fill> fmt::Debug for SimVal<F> {
     fn fmt(&self, f: &mut fmt::Formatter<'_>) -> fmt::Result {
         let p = self.peek();
         env::touch(Cb::FmtV, Some(&p), None);
+        if env::fmt_elem_fails() {
+            return Err(fmt::Error);
+        }
         write!(f, "v{}", p.id)
     }
 }
@@ -311,6 +320,9 @@ impl<F: Fill> fmt::Display for SimVal<F> {
     fn fmt(&self, f: &mut fmt::Formatter<'_>) -> fmt::Result {
         let p = self.peek();
         env::touch(Cb::FmtV, Some(&p), None);
+        if env::fmt_elem_fails() {
+            return Err(fmt::Error);
+        }
         write!(f, "V{}", p.id)
     }
 }
@@ -383,12 +395,18 @@ impl Drop for ZKey {
 impl fmt::Debug for ZKey {
     fn fmt(&self, f: &mut fmt::Formatter<'_>) -> fmt::Result {
         env::touch(Cb::FmtK, Some(&self.peek()), None);
+        if env::fmt_elem_fails() {
+            return Err(fmt::Error);
+        }
         f.write_str("k0")
     }
 }
 impl fmt::Display for ZKey {
     fn fmt(&self, f: &mut fmt::Formatter<'_>) -> fmt::Result {
         env::touch(Cb::FmtK, Some(&self.peek()), None);
+        if env::fmt_elem_fails() {
+            return Err(fmt::Error);
+        }
         f.write_str("K0")
     }
 }
@@ -455,12 +473,18 @@ impl Drop for ZVal {
 impl fmt::Debug for ZVal {
     fn fmt(&self, f: &mut fmt::Formatter<'_>) -> fmt::Result {
         env::touch(Cb::FmtV, Some(&self.peek()), None);
+        if env::fmt_elem_fails() {
+            return Err(fmt::Error);
+        }
         f.write_str("v0")
     }
 }
 impl fmt::Display for ZVal {
     fn fmt(&self, f: &mut fmt::Formatter<'_>) -> fmt::Result {
         env::touch(Cb::FmtV, Some(&self.peek()), None);
+        if env::fmt_elem_fails() {
+            return Err(fmt::Error);
+        }
         f.write_str("V0")
     }
 }
@@ -543,6 +567,9 @@ impl fmt::Debug for PKey {
     fn fmt(&self, f: &mut fmt::Formatter<'_>) -> fmt::Result {
         let p = self.peek();
         env::touch(Cb::FmtK, Some(&p), None);
+        if env::fmt_elem_fails() {
+            return Err(fmt::Error);
+        }
         write!(f, "k{}", p.id)
     }
 }
@@ -550,6 +577,9 @@ impl fmt::Display for PKey {
     fn fmt(&self, f: &mut fmt::Formatter<'_>) -> fmt::Result {
         let p = self.peek();
         env::touch(Cb::FmtK, Some(&p), None);
+        if env::fmt_elem_fails() {
+            return Err(fmt::Error);
+        }
         write!(f, "K{}", p.id)
     }
 }
@@ -612,6 +642,9 @@ impl fmt::Debug for PVal {
     fn fmt(&self, f: &mut fmt::Formatter<'_>) -> fmt::Result {
         let p = self.peek();
         env::touch(Cb::FmtV, Some(&p), None);
+        if env::fmt_elem_fails() {
+            return Err(fmt::Error);
+        }
         write!(f, "v{}", p.id)
     }
 }
@@ -619,6 +652,9 @@ impl fmt::Display for PVal {
     fn fmt(&self, f: &mut fmt::Formatter<'_>) -> fmt::Result {
         let p = self.peek();
         env::touch(Cb::FmtV, Some(&p), None);
+        if env::fmt_elem_fails() {
+            return Err(fmt::Error);
+        }
         write!(f, "V{}", p.id)
     }
 }
